@@ -39,6 +39,7 @@ type State struct {
 	dead  bool
 	epoch string
 	defers []deferred
+	facts  map[string]bool
 }
 
 func (st *State) clone(n *Node) *State {
@@ -49,6 +50,13 @@ func (st *State) clone(n *Node) *State {
 	for k, v := range st.ghost {
 		c.ghost[k] = v
 	}
+	if st.facts != nil {
+		c.facts = make(map[string]bool, len(st.facts)+4)
+		for k, v := range st.facts {
+			c.facts[k] = v
+		}
+	}
+	c.learn(n.T)
 	return c
 }
 
@@ -63,6 +71,44 @@ func (st *State) Assume(t Term) {
 		return
 	}
 	st.emit(&Node{Kind: NAssume, T: t})
+	st.learn(t)
+}
+
+// learn records a fact syntactically (used to prune branches whose condition is already decided).
+func (st *State) learn(t Term) {
+	if t.Sort != SBool || len(t.S) > 400 {
+		return
+	}
+	if st.facts == nil {
+		st.facts = map[string]bool{}
+	}
+	if strings.HasPrefix(t.S, "(and ") {
+		for _, p := range splitTop(t.S[1 : len(t.S)-1])[1:] {
+			st.learn(Term{p, SBool})
+		}
+		return
+	}
+	if strings.HasPrefix(t.S, "(not ") {
+		st.facts[t.S[5:len(t.S)-1]] = false
+		return
+	}
+	st.facts[t.S] = true
+}
+
+// known reports whether the truth value of c is already decided syntactically on this path.
+func (st *State) known(c Term) (val bool, ok bool) {
+	if st.facts == nil {
+		return false, false
+	}
+	if v, ok := st.facts[c.S]; ok {
+		return v, true
+	}
+	if strings.HasPrefix(c.S, "(not ") {
+		if v, ok := st.facts[c.S[5:len(c.S)-1]]; ok {
+			return !v, true
+		}
+	}
+	return false, false
 }
 
 func (st *State) End(note string) {
@@ -185,13 +231,23 @@ func (e *Engine) loadPtr(st *State, p VPtr, heap map[string]Term) Value {
 		return t
 	}
 	if p.ArrLen >= 0 {
-		if p.Idx.S != "0" {
-			panic(unsupported("load of array through pointer with non-zero base"))
+		if p.Idx.S != "0" && p.ArrLen > 64 {
+			panic(unsupported("load of a large array through a pointer with non-zero base"))
 		}
 		var comps []Term
 		for _, c := range flatten(p.Root) {
 			h := get(heapName(p.Root, c.Path), arrOf(arrOf(c.Sort)))
-			comps = append(comps, Select(h, p.Ref))
+			obj := Select(h, p.Ref)
+			if p.Idx.S == "0" {
+				comps = append(comps, obj)
+				continue
+			}
+			// re-base element by element
+			a := zeroOfSort(arrOf(c.Sort))
+			for i := int64(0); i < p.ArrLen; i++ {
+				a = Store(a, IntLit(i), Select(obj, Add(p.Idx, IntLit(i))))
+			}
+			comps = append(comps, a)
 		}
 		return VArr{N: p.ArrLen, Elem: p.Root, Comps: comps}
 	}
@@ -213,14 +269,26 @@ func (e *Engine) storePtr(st *State, p VPtr, v Value) {
 		panic(unsupported("store through snapshot pointer"))
 	}
 	if p.ArrLen >= 0 {
-		if p.Idx.S != "0" {
-			panic(unsupported("store of array through pointer with non-zero base"))
+		if p.Idx.S != "0" && p.ArrLen > 64 {
+			panic(unsupported("store of a large array through a pointer with non-zero base"))
 		}
 		a := v.(VArr)
 		for i, c := range flatten(p.Root) {
 			name := heapName(p.Root, c.Path)
 			h := e.heapGet(st, name, arrOf(arrOf(c.Sort)))
-			e.heapSet(st, name, Store(h, p.Ref, a.Comps[i]))
+			if p.Idx.S == "0" && p.NonNil {
+				// a freshly allocated array object: replace the whole object
+				e.heapSet(st, name, Store(h, p.Ref, a.Comps[i]))
+				continue
+			}
+			if p.ArrLen > 64 {
+				panic(unsupported("store of a large array through a pointer"))
+			}
+			obj := Select(h, p.Ref)
+			for k := int64(0); k < p.ArrLen; k++ {
+				obj = Store(obj, Add(p.Idx, IntLit(k)), Select(a.Comps[i], IntLit(k)))
+			}
+			e.heapSet(st, name, Store(h, p.Ref, obj))
 		}
 		return
 	}
